@@ -8,7 +8,7 @@ ASSUMPTIONS = [
     "implicit stops (nil dereference, index out of range) cannot be inventoried syntactically; the hostile-field generator targets them: every payload field of every kind x a table of hostile values, correctly signed",
     "the class of every explicit panic/Fatal/Exit site in props/C18.v was assigned by reading the code (audited, trusted)",
     "memory exhaustion and time are outside; inputs run in worker processes so that os.Exit and application shutdown are observed from outside; after every input a probe transaction must still be accepted, executed and committed",
-    "ETH lock/redeem/report and OLVM payloads are generated under C15/C17; their known crash inputs are replayed here as corpus when present",
+    "ETH lock/redeem/ERC20/report kinds run on a second prepared chain (Ethereum chain driver, witnesses, a token: harness/c18eth.go) with the same field/payload/envelope hostility plus hostile EMBEDDED Ethereum transactions (every selector x 0..200 argument bytes, bare / framed / RLP signed / unsigned / to contract, token, elsewhere, creation); OLVM transactions get hostile values, chain ids, gas, nonces, memos, code and signatures of every length",
 ]
 
 
@@ -22,9 +22,9 @@ def corpus_inputs():
         if not os.path.exists(p):
             continue
         rp = json.load(open(p))
-        txs = [i["tx"] for i in rp.get("inputs", [])] + list(rp.get("txs", []))
-        for t in txs:
-            out.append({"kind": rp.get("tx_kind", "corpus"), "name": f["trigger"], "class": "corpus", "tx": t, "finding": f})
+        txs = [(i["tx"], i.get("world", "")) for i in rp.get("inputs", [])] + [(t, rp.get("world", "")) for t in rp.get("txs", [])]
+        for t, w in txs:
+            out.append({"kind": rp.get("tx_kind", "corpus"), "name": f["trigger"], "class": "corpus", "tx": t, "world": w, "finding": f})
     return out
 
 
@@ -45,7 +45,7 @@ def run(ctx):
     cor = corpus_inputs()
     for c in cor:
         c["id"] = len(ins)
-        ins.append({k: c[k] for k in ("id", "kind", "name", "class", "tx")})
+        ins.append({k: c[k] for k in ("id", "kind", "name", "class", "tx", "world")})
     json.dump(ins, open(gen, "w"))
     ids = [i["id"] for i in ins]
     if ctx.tier != "thorough":
@@ -72,14 +72,14 @@ def run(ctx):
         if n <= 5:
             ctx.violation("crash_%s_%s" % (inp["kind"], "".join(ch if ch.isalnum() else "_" for ch in inp["name"])[:40]), {
                 "kind": "transaction-input-stops-the-node", "tx_kind": inp["kind"], "input": inp["name"], "class": inp["class"], "stage": stage,
-                "worker_exit_status": rc, "txs": [inp["tx"]], "mode": "both", "how": "./check replay <this file>"})
+                "worker_exit_status": rc, "txs": [inp["tx"]], "world": inp.get("world", ""), "mode": "both", "how": "./check replay <this file>"})
     kinds = sorted({byid[i]["kind"] for i in ids})
     ctx.coverage.update({
         "evaluations": len(ids), "distinct_nontrivial": len({byid[i]["tx"] for i in ids}),
         "rule": "for each of %d kinds a valid transaction in a prepared chain state; every payload field x hostile values by field type (addresses: empty/short/long/malformed/foreign/null; "
                 "amounts: 4 currencies x {-1, 0, 2^63-1, 2^63, 2^64, 10^40, -2^64} plus nil/partial/mistyped; numbers: negative/boundary/float/string; strings: empty/5000 chars/control and "
                 "multi-byte; booleans; field absent), whole-payload cases, envelope cases (fee gas/price/currency, type, memo, signature list/key/algorithm/bytes), all correctly signed where "
-                "the signer set allows; 116 malformed byte strings; corpus of earlier crash findings; each input goes through CheckTx and then a block (DeliverTx, EndBlock, Commit) in a worker "
+                "the signer set allows; embedded Ethereum transactions (see assumptions); 116 malformed byte strings; corpus of earlier crash findings; each input goes through CheckTx and then a block (DeliverTx, EndBlock, Commit) in a worker "
                 "process, followed by a probe transaction; distinct = distinct byte strings" % len([k for k in kinds if k not in ("-", "corpus")]),
         "input_class_histogram": hist, "survived": len(results), "crashes": len(crashes), "corpus_inputs": len(cor),
         "accepted_by_checktx": acc["check_accepted"], "executed_by_delivertx": acc["deliver_executed"],
@@ -96,8 +96,8 @@ def replay(ctx, rp):
     vh = common.build_harness()
     d = os.path.join(ctx.scratch, "c18")
     os.makedirs(d, exist_ok=True)
-    txs = [i["tx"] for i in rp.get("inputs", [])] + list(rp.get("txs", []))
-    ins = [{"id": n, "kind": rp.get("tx_kind", "replay"), "name": "replay%d" % n, "class": "corpus", "tx": t} for n, t in enumerate(txs)]
+    txs = [(i["tx"], i.get("world", "")) for i in rp.get("inputs", [])] + [(t, rp.get("world", "")) for t in rp.get("txs", [])]
+    ins = [{"id": n, "kind": rp.get("tx_kind", "replay"), "name": "replay%d" % n, "class": "corpus", "tx": t, "world": w} for n, (t, w) in enumerate(txs)]
     f = os.path.join(d, "in.json")
     json.dump(ins, open(f, "w"))
     results, crashes = c18run.run_all(vh, f, [i["id"] for i in ins], chunk=1)
